@@ -17,6 +17,8 @@ import base64
 import binascii
 import collections
 import contextlib
+import copy
+import datetime
 import hashlib
 import itertools
 import shutil
@@ -409,6 +411,14 @@ def yaml_special_texts():
     for k in ["\"\"", "? \n  ", "? {a: 1}\n  ", "\"{'a': 1}\"", "\"ordereddict([('a', 1)])\"", "0", "false", "\"0\"", "0.0",
               "!!binary aGk=", "\"b'hi'\""]:
         yield _HEAD + "  " + k + ": x\n"
+    # anchored scalars (the loader wraps them), tagged scalars (Ansible's !unsafe / !vault), fractional timestamps
+    for v in ["&a true", "&a 1", "true", "&a false", "&a 0", "&a text", "text", "&a 1.5", "1.5", "&a ~", "&a 0x10", "16",
+              "!unsafe x", "x", "!unsafe 1", "!other x", "!unsafe \"x\"", "!unsafe \"'x'\"", "!unsafe ''",
+              "2001-12-15T02:59:43.1Z", "2001-12-15T02:59:43.2Z", "2001-12-15T02:59:43Z", "2001-12-15 02:59:43.1",
+              "!!pairs [a: 1]", "!!omap [a: 1]", "[[a, 1]]"]:
+        yield _HEAD + "  k: " + v + "\n"
+    yield _HEAD + "  k: a\n  j: z\n"
+    yield _HEAD + "  k: !unsafe \"'a'), ('j', 'z'\"\n"
     # a node shared through an anchor between an excluded place and a signed place (audit: aliasing)
     for x in ("1", "2"):
         yield ("- hosts: &H {x: %s, y: 2}\n  vars:\n    insights_signature_exclude: /hosts/x,/vars/insights_signature\n"
@@ -606,11 +616,91 @@ def shares_containers(obj):
 
 
 ALIASING = {"aliasing": "excluded_child_of_shared_node"}
+_PLAIN_TYPES = (str, int, float, bool, type(None), bytes, datetime.date, datetime.datetime)
+
+
+def _leaf_suspicious(x):
+    """A loader-produced leaf that does not serialise like the plain value with the same content (decided by
+    running the real serialiser on both), or that has no plain equivalent at all."""
+    if type(x) in _PLAIN_TYPES:
+        return False
+    try:
+        plain = m.dec(m.enc(x))
+    except ValueError:
+        return True
+    p = pv()
+    try:
+        return p.serialize_play(copy.deepcopy(x)) != p.serialize_play(plain)
+    except Exception:
+        return True
+
+
+def _walk_leaves(x, fn):
+    if isinstance(x, dict):
+        for k, v in x.items():
+            _walk_leaves(k, fn)
+            _walk_leaves(v, fn)
+    elif isinstance(x, list):
+        for v in x:
+            _walk_leaves(v, fn)
+    else:
+        fn(x)
+
+
+def suspicious_leaves(obj):
+    names = set()
+    _walk_leaves(obj, lambda x: names.add(type(x).__name__) if _leaf_suspicious(x) else None)
+    return sorted(names)
+
+
+def sanitised(x):
+    """The same play as plain, unshared containers with every suspicious leaf replaced by a harmless string token
+    that is injective in the leaf's type and content."""
+    if isinstance(x, dict):
+        return dict((sanitised(k), sanitised(v)) for k, v in x.items())
+    if isinstance(x, list):
+        return [sanitised(v) for v in x]
+    if _leaf_suspicious(x):
+        return "X" + m.fp(m.enc(x)).encode("utf-8").hex() + type(x).__name__
+    return x
+
+
+def loader_cause_pair(objs):
+    """features when a digest collision disappears once the suspicious loader leaves are made harmless"""
+    names = sorted(set(suspicious_leaves(objs[0])) | set(suspicious_leaves(objs[1])))
+    if not names:
+        return None
+    try:
+        ra, rb = pipeline(sanitised(objs[0])), pipeline(sanitised(objs[1]))
+    except Exception:
+        return None
+    if ra[0] == "ok" and rb[0] == "ok" and ra[1] != rb[1]:
+        return {"loader_object": "+".join(names)}
+    return None
+
+
+def loader_cause_single(obj):
+    """features when the exclusion is exact once the suspicious loader leaves are made harmless"""
+    names = suspicious_leaves(obj)
+    if not names:
+        return None
+    try:
+        plain = sanitised(obj)
+        run = pipeline(plain)
+        ref = m.ref_exclusion(m.enc(plain))
+    except Exception:
+        return None
+    if run[0] == "ok" and ref[0] in ("ok", "either") and m.fp_obj(run[3]) == m.fp(ref[2]):
+        return {"loader_object": "+".join(names)}
+    return None
 
 
 def _unshared_twin_ok(pe, ref):
     """The same content without shared nodes is excluded correctly -> the sharing is the cause."""
-    twin = pipeline(m.dec(pe, dict))
+    try:
+        twin = pipeline(m.dec(pe, dict))
+    except ValueError:
+        return False
     return twin[0] == "ok" and m.fp_obj(twin[3]) == m.fp(ref[2])
 
 
@@ -697,6 +787,171 @@ def with_sig(pe, sig_e):
 
 # ---- checkers (exploration and replay share them) ----------------------------------------------------
 
+# ---- histories (audit: process-global state, long-lived objects) ------------------------------------
+
+EQ_GROUPS = [[I(1), B(True), F(1.0)], [I(0), B(False), F(0.0), F(-0.0)]]
+
+
+def order_cases():
+    """Every ordered pair of scalars that are equal (==, same hash) but of different type / spelling."""
+    for g in EQ_GROUPS:
+        for a, b in itertools.permutations(g, 2):
+            yield {"kind": "order", "first": a, "second": b}
+
+
+def _scalar_plays(z):
+    return [wrap([(S("k"), z)]), wrap([(z, S("x"))]), wrap([(S("k"), L(z, S("a")))]), wrap([(S("k"), M((z, z)))])]
+
+
+_CHILD = ("import sys, json\n"
+          "sys.path[:0] = [%r, %r]\n"
+          "from props import c18\n"
+          "from harness import c18_model as m\n"
+          "out = []\n"
+          "for pe in json.load(sys.stdin):\n"
+          "    r = c18.pipeline(m.dec(pe, dict))\n"
+          "    out.append(r[1].hex() if r[0] == 'ok' else 'EXC:' + r[1])\n"
+          "print(json.dumps(out))\n")
+
+
+def fresh_process_digests(plays):
+    """Digests of the plays, computed one after the other in ONE fresh interpreter."""
+    import json
+    import os
+    import subprocess
+    import sys
+    here = os.path.dirname(os.path.dirname(os.path.abspath(__file__)))
+    env = dict(os.environ, PYTHONHASHSEED="0")
+    pr = subprocess.run([sys.executable, "-c", _CHILD % (here, os.environ.get("VERIF_REPO", "/repo"))],
+                        input=json.dumps(plays).encode(), stdout=subprocess.PIPE, stderr=subprocess.PIPE, env=env,
+                        timeout=300)
+    if pr.returncode != 0:
+        raise RuntimeError("harness: child interpreter failed: %s" % pr.stderr.decode("utf-8", "replace")[-1500:])
+    return json.loads(pr.stdout.decode())
+
+
+def check_order(case):
+    """The digest of a play must not depend on what was serialised before it in the same process."""
+    a, b = case["first"], case["second"]
+    pa, pb = _scalar_plays(a), _scalar_plays(b)
+    after = fresh_process_digests(pa + pb)[len(pa):]          # b's plays after a's plays
+    alone = fresh_process_digests(pb)                         # b's plays first in a fresh process
+    here = []
+    for pe in pb:                                             # and in this (long-running) worker process
+        r = pipeline(m.dec(pe, dict))
+        here.append(r[1].hex() if r[0] == "ok" else "EXC:" + r[1])
+    out = []
+    feats = {"history": "equal_scalar_serialised_before", "types": "%s_after_%s" % (m._tn(b), m._tn(a))}
+    if after != alone:
+        out.append(("digest:independent-of-history", {"fresh process": alone}, {"after the equal scalar": after}, feats))
+    if here != alone:
+        out.append(("digest:independent-of-history", {"fresh process": alone}, {"long-running process": here},
+                    {"history": "long_running_process", "types": m._tn(b)}))
+    return out
+
+
+H_STEPS = [["set", ["hosts"], S("h2")], ["set", ["hosts"], L(S("a"))], ["set", ["k"], S("b")],
+           ["set", ["k"], L(S("a"), I(1))], ["set", ["vars", "x"], I(2)], ["set", ["vars", SIG], S("c2lnMg==")],
+           ["del", ["hosts"]], ["poke-remainder"]]
+H_BASES = [wrap([(S("k"), L(S("a")))], vafter=[(S("x"), I(1))]),
+           wrap([(S("k"), M((S("c"), S("a"))))], exc="/vars", vafter=[(S("x"), M((S("y"), I(1))))], pos="before")]
+
+
+def hist_cases(tier):
+    for bi in range(len(H_BASES)):
+        for n in (1, 2, 3):
+            for steps in itertools.product(range(len(H_STEPS)), repeat=n):
+                yield {"kind": "hist", "base": bi, "steps": list(steps)}
+
+
+def _enc_apply(pe, step):
+    op = step[0]
+    if op == "poke-remainder":
+        return pe
+    path = step[1]
+    out = json_copy(pe)
+    cur = out
+    for c in path[:-1]:
+        cur = m.m_get(cur, c)
+        if cur is None or cur[0] != "m":
+            return out
+    key = S(path[-1])
+    for idx, (k, _) in enumerate(cur[1]):
+        if k == key:
+            if op == "del":
+                del cur[1][idx]
+            else:
+                cur[1][idx][1] = step[2]
+            return out
+    if op == "set":
+        cur[1].append([key, step[2]])
+    return out
+
+
+def json_copy(e):
+    import json
+    return json.loads(json.dumps(e))
+
+
+def _obj_apply(obj, step):
+    op = step[0]
+    if op == "poke-remainder":
+        try:
+            rem = pv().exclude_dynamic_elements(obj)
+        except Exception:
+            return
+
+        def scribble(x):
+            if isinstance(x, dict):
+                for v in list(x.values()):
+                    scribble(v)
+                x["__poked__"] = 1
+            elif isinstance(x, list):
+                for v in x:
+                    scribble(v)
+                x.append("__poked__")
+        scribble(rem)
+        return
+    cur = obj
+    for c in step[1][:-1]:
+        cur = cur.get(c) if isinstance(cur, dict) else None
+        if not isinstance(cur, dict):
+            return
+    if op == "del":
+        cur.pop(step[1][-1], None)
+    else:
+        cur[step[1][-1]] = m.dec(step[2], dict)
+
+
+def _outcome(run):
+    return run[1].hex() if run[0] == "ok" else "EXC:" + run[1]
+
+
+def check_hist(case):
+    """One long-lived play object is edited in place and digested after every step; each digest must be the one a
+    freshly built play with the same content gets (no state carried by the object, the module or the result)."""
+    pe = H_BASES[case["base"]]
+    obj = m.dec(pe, dict)
+    pipeline(obj)
+    out = []
+    for n, si in enumerate(case["steps"]):
+        step = H_STEPS[si]
+        _obj_apply(obj, step)
+        pe = _enc_apply(pe, step)
+        if m.fp_obj(obj) != m.fp(pe):
+            if step[0] == "poke-remainder":
+                out.append(("digest:independent-of-history", "the play is untouched by edits of the returned remainder",
+                            m.enc(obj), {"history": "remainder_shares_objects_with_play"}))
+                return out
+            raise RuntimeError("harness: step %r applied differently to object and encoding" % (step,))
+        got, want = _outcome(pipeline(obj)), _outcome(pipeline(m.dec(pe, dict)))
+        if got != want:
+            out.append(("digest:independent-of-history", {"fresh play with the same content": want},
+                        {"long-lived play after step %d" % n: got}, {"history": "long_lived_play_object"}))
+            break
+    return out
+
+
 def check_pair(case):
     """Two plays: equal digests <=> structurally equal reference remainders."""
     out = []
@@ -720,7 +975,7 @@ def check_pair(case):
                 _unshared_twin_ok(encs[0], refs[0]) and _unshared_twin_ok(encs[1], refs[1]):
             feats = dict(ALIASING)
         else:
-            feats = m.classify_collision(refs[0][2], refs[1][2], digest_of_remainder)
+            feats = loader_cause_pair(objs) or m.classify_collision(refs[0][2], refs[1][2], digest_of_remainder)
         out.append(("digest:injective", "different digests: the signed parts differ",
                     {"digest": da.hex(), "serialised": runs[0][2].decode("utf-8", "replace")[:400]}, feats))
     if fa == fb and da != db:
@@ -747,6 +1002,8 @@ def check_single(src, obj=None, pe=None, run=None):
             feats = {"rule": ref[1]}
             if shares_containers(obj) and _unshared_twin_ok(pe, ref):
                 feats = dict(ALIASING)
+            else:
+                feats = loader_cause_single(obj) or feats
             out.append(("exclusion:remainder-matches-reference", ref[2], m.enc(run[3]), feats))
         again = pipeline(obj)
         if again[0] != "ok" or again[1] != run[1]:
@@ -902,11 +1159,16 @@ def units(tier, seed):
     us += [{"part": "yaml-special"}, {"part": "yaml-zoo"}]
     us += [{"part": "excl", "mode": md} for md in ("dict", "odict", "yaml-flow", "yaml-block")]
     us += [{"part": "verify", "mode": md} for md in ("dict", "yaml-flow")]
+    us += [{"part": "o2", "entries": 3, "lo": lo, "hi": min(len(o2_bases3(tier)), lo + 3)}
+           for lo in range(0, len(o2_bases3(tier)), 3)]
+    us += [{"part": "excl-gen", "mode": md} for md in ("dict", "yaml-flow")]
+    us += [{"part": "order", "index": i} for i in range(len(list(order_cases())))]
+    us += [{"part": "hist", "base": bi} for bi in range(len(H_BASES))]
     return us
 
 
 def unit_weight(u):
-    return {"o1": 5, "o2": 3, "yaml": 2, "yaml-pairs": 2}.get(u["part"], 1)
+    return {"o1": 5, "o2": 3, "yaml": 2, "yaml-pairs": 2, "excl-gen": 3}.get(u["part"], 1)
 
 
 _STRIP = {ord(c): None for c in "'\"\\[]()"}
@@ -1054,6 +1316,9 @@ def _run_o3a(unit, tier, res):
             if run[0] != "ok":
                 _emit(res, check_single(src, obj, pe, run), {"kind": "single", "play": src})
                 continue
+            # the same play through the public entry point: what verify_play hands to GPG is this digest
+            xcase = {"kind": "excl", "play": src}
+            _emit(res, check_excl(xcase)[0], xcase)
             f = m.fp(ref[2])
             ent = by_fp.get(f)
             if ent is None:
@@ -1148,6 +1413,27 @@ def run_unit(unit, tier):
             res.case(nontrivial=status in ("error", "reject"), outcome="excl:%s:%s" % (status, obs))
             _emit(res, vio, case)
         res.samples.append(case)
+    elif part == "excl-gen":
+        for pe in excl_gen_plays(full=(unit["mode"] == "dict")):
+            case = {"kind": "excl", "play": {"enc": pe, "mode": unit["mode"]}}
+            vio, status, obs = check_excl(case)
+            res.case(nontrivial=status in ("error", "reject"), outcome="excl:%s:%s" % (status, obs))
+            _emit(res, vio, case)
+        res.samples.append(case)
+    elif part == "order":
+        case = list(order_cases())[unit["index"]]
+        vio = check_order(case)
+        res.case(nontrivial=True, outcome="order:%s" % ("differs" if vio else "same"), sample=case)
+        res.stat("fresh_interpreters", 2)
+        _emit(res, vio, case)
+    elif part == "hist":
+        for case in hist_cases(tier):
+            if case["base"] != unit["base"]:
+                continue
+            vio = check_hist(case)
+            res.case(nontrivial=len(case["steps"]) > 1, outcome="hist:%d:%s" % (len(case["steps"]), "differs" if vio else "same"))
+            _emit(res, vio, case)
+        res.samples.append(case)
     elif part == "verify":
         for pi, pe in enumerate(verify_plays()):
             for rk in REVOCATION_KINDS:
@@ -1172,6 +1458,10 @@ def replay(case):
         vio = check_excl(case)[0]
     elif kind == "verify":
         vio = check_verify(case)[0]
+    elif kind == "order":
+        vio = check_order(case)
+    elif kind == "hist":
+        vio = check_hist(case)
     else:
         raise ValueError(kind)
     return [{"clause": v[0], "case": case, "expected": v[1], "observed": v[2], "features": v[3] if len(v) > 3 else {}}
